@@ -108,6 +108,47 @@ def run_cli(args, stdin=b"", env=None, tty=False, timeout=30, stdin_tty=False, c
     return p.returncode, out.replace(b"\r\n", b"\n"), err
 
 
+def run_cli2(args, env=None, out_tty=False, err_tty=True, timeout=60):
+    """Like run_cli, with stdout and stderr independently a pty or a pipe (no stdin)."""
+    env = base_env(env)
+    fds = {}
+    def end(is_tty):
+        if is_tty:
+            m, sl = pty.openpty()
+            return m, sl
+        r, w = os.pipe()
+        return r, w
+    om, osl = end(out_tty)
+    em, esl = end(err_tty)
+    p = subprocess.Popen([BIN] + list(args), stdin=subprocess.DEVNULL, stdout=osl, stderr=esl, env=env, close_fds=True)
+    os.close(osl); os.close(esl)
+    bufs = {om: b"", em: b""}
+    live = {om, em}
+    deadline = time.time() + timeout
+    while live:
+        if time.time() > deadline:
+            p.kill()
+            break
+        r, _, _ = select.select(list(live), [], [], 0.05)
+        for fd in r:
+            try:
+                chunk = os.read(fd, 65536)
+            except OSError:
+                chunk = b""
+            if chunk:
+                bufs[fd] += chunk
+            else:
+                live.discard(fd)
+        if not r and p.poll() is not None:
+            # drain once more, then stop
+            r, _, _ = select.select(list(live), [], [], 0.05)
+            if not r:
+                break
+    p.wait()
+    os.close(om); os.close(em)
+    return p.returncode, bufs[om].replace(b"\r\n", b"\n"), bufs[em].replace(b"\r\n", b"\n")
+
+
 def model_batch(lines):
     if not lines:
         return []
@@ -250,6 +291,31 @@ def c13(res, tier, seed, lib):
         if mo != impl:
             res.disagree(op, impl, mo)
     res.d["exhaustive"].append("all %d configurations of flag x pipe/pty x PASTEL_COLOR_MODE x NO_COLOR x COLORTERM" % len(configs))
+    # the same decision for a command that also writes to STDERR (`distinct`), with STDERR a terminal:
+    # a PASTEL_COLOR_MODE value is an error only where the rule list consults it
+    for f in flags:
+        for out_tty in (False, True):
+            for pv in ["junk", "", b"24bit\xff", b"\xff", "24bit", None]:
+                env = {} if pv is None else {"PASTEL_COLOR_MODE": pv}
+                rc, out, err = run_cli2(f + ["distinct", "2", "red", "blue"], env=env, out_tty=out_tty, err_tty=True)
+                consulted = (f == [] or f == ["-m", "auto"]) and out_tty
+                bad = pv not in (None, "24bit")
+                inp = "%s distinct 2 red blue; stdout tty=%s stderr tty=True PASTEL_COLOR_MODE=%r" % (f, out_tty, pv)
+                res.case(inp)
+                if consulted and bad:
+                    res.check(rc == 1 and b"Unknown PASTEL_COLOR_MODE value" in err, "unknown-mode-value-is-an-error-where-consulted", "cli:distinct", inp, "rc=%s %r" % (rc, err[-120:]))
+                else:
+                    res.check(rc == 0 and out.count(b"\n") >= 2, "mode-value-not-consulted-is-irrelevant", "cli:distinct", inp, "rc=%s out=%r err=%r" % (rc, out[:60], err[-120:]))
+    # a value that is not valid Unicode is "anything else": an error where the variable is consulted
+    for pv in [b"24bit\xff", b"\xff\xfe", b"off\x80"]:
+        for extra in ({}, {"NO_COLOR": "1"}, {"COLORTERM": "truecolor"}):
+            env = dict(extra); env["PASTEL_COLOR_MODE"] = pv
+            rc, out, err = run_cli(["format", "hex", "ff0077"], env=env, tty=True)
+            inp = "format hex ff0077 tty=True env=%r" % env
+            res.case(inp)
+            res.check(rc == 1 and b"Unknown PASTEL_COLOR_MODE value" in err, "unknown-mode-value-is-an-error-where-consulted", "main.rs::run", inp, "rc=%s out=%r" % (rc, out[:60]))
+            rc, out, err = run_cli(["format", "hex", "ff0077"], env=env, tty=False)
+            res.check(rc == 0 and out == b"#ff0077\n", "mode-value-not-consulted-is-irrelevant", "main.rs::run", inp.replace("tty=True", "tty=False"), "rc=%s out=%r" % (rc, out[:60]))
 
     # ---- ESC scan: colour off => no ESC of its own; colour on => reset discipline ----
     cols = ["red", "#33aa55", "hsl(200,50%,40%)", "rgba(10,20,30,0.5)"]
